@@ -171,11 +171,17 @@ class GhostSelf:
         w.check("C07", "fit/_shuffle_data receives the caller's bases", input_bases is (w.bases_obj if w.with_bases else None))
         w.check("C07", "fit/_shuffle_data receives the reference-basis samples iff bases are given", z_samples is (w.z_obj if w.with_bases else None))
         w.check("C07", "fit/reshuffles once per epoch, before the epoch's first event", w.phase == "BETWEEN" and w.shuffles_this_epoch == 1)
-        # contract of _shuffle_data (C07 part=shuffle): one batch tuple per positive batch, ceil(N/B) of them
+        # contract of _shuffle_data (C07 part=shuffle): zip of ceil(N/B) positive batches with the negative batches;
+        # the negative batches are the positive ones (no bases, equal sizes) or `num_batches` independently drawn ones
         def elem(j):
             t = (("pos", j), ("neg", j), ("bases", j)) if w.with_bases else (("pos", j), ("neg", j))
             return t
-        return A.GhostSeq(w.nb, elem, "batches")
+        n_pos = (train_samples.shape[0] + pos_batch_size - 1) // pos_batch_size
+        if input_bases is None:
+            length = ITE(neg_batch_size == pos_batch_size, n_pos, A.sb_min(n_pos, num_batches))
+        else:
+            length = A.sb_min(n_pos, num_batches)
+        return A.GhostSeq(length, elem, "batches")
 
     def compute_batch_gradients(self, k, *batch):
         w = self.w
